@@ -243,6 +243,7 @@ var (
 	dmu     sync.Mutex
 	waiting = map[string]chan *Conn{}
 	failing = map[string]error{}
+	presetFail = map[string]int{}
 	seq     int
 )
 
@@ -260,6 +261,11 @@ func (d dialer) Dial(network, address string) (net.Conn, error) {
 		return nil, fmt.Errorf("memconn: nobody listening for %q", d.id)
 	}
 	c := newConn(address)
+	dmu.Lock()
+	if k := presetFail[d.id]; k > 0 {
+		c.writeErrAt = k
+	}
+	dmu.Unlock()
 	ch <- c
 	return c, nil
 }
@@ -279,6 +285,14 @@ func Listen() (proxyURL string, conns chan *Conn) {
 	ch := make(chan *Conn, 16)
 	waiting[id] = ch
 	return "verif://" + id, ch
+}
+
+// PresetFailWrite makes the k-th Write of every connection dialled through proxyURL fail.
+func PresetFailWrite(proxyURL string, k int) {
+	u, _ := url.Parse(proxyURL)
+	dmu.Lock()
+	defer dmu.Unlock()
+	presetFail[u.Host] = k
 }
 
 // FailDial makes dials through proxyURL fail with err (nil = succeed again).
